@@ -22,6 +22,8 @@ func checkC14(c *Ctx) {
 	c14RangeTracks(c)
 	c14NodeRangeStart(c)
 	c14TokenKind(c, "R7")
+	c14RangeParam(c, "R8")
+	c14PeekerIndex(c, "R9")
 }
 
 // range.tracks: a parser loop that accumulates items in a slice and tracks the source range of the
@@ -802,4 +804,147 @@ func sortedKinds(m map[int64]int) []string {
 	}
 	sort.Strings(out)
 	return out
+}
+
+// range.param: a parser helper that is handed the range of what it appends uses it on every arm.
+func c14RangeParam(c *Ctx, rule string) {
+	c.Rule(rule + " range.param: in an hclsyntax function that has a single parameter of type hcl.Range and stores node ranges computed from it (makeRelativeTraversal: the range of the step being appended), every store into an hcl.Range field of a syntax node in that function is computed from that parameter (directly or as an argument of hcl.RangeBetween): an arm that derives the node's range from something else (the steps collected so far) leaves the new step outside the node's range, and the writer's loader, which assigns tokens by these ranges, puts its tokens after the item")
+	pkg := c.P.Pkg("hclsyntax")
+	var nodeI *types.Interface
+	if pkg != nil {
+		if tn, ok := pkg.Types.Scope().Lookup("Node").(*types.TypeName); ok {
+			nodeI, _ = tn.Type().Underlying().(*types.Interface)
+		}
+	}
+	if nodeI == nil {
+		c.CheckerFail("range.param", "anchor hclsyntax.Node does not resolve")
+		return
+	}
+	n := 0
+	for _, fn := range c.P.pkgFuncs("hclsyntax") {
+		if fn.Parent() != nil {
+			continue
+		}
+		var rng *ssa.Parameter
+		cnt := 0
+		for _, p := range fn.Params {
+			if isNamed(p.Type(), modPath, "Range") {
+				rng = p
+				cnt++
+			}
+		}
+		if cnt != 1 {
+			continue
+		}
+		var fromParam func(v ssa.Value, d int) bool
+		fromParam = func(v ssa.Value, d int) bool {
+			if v == ssa.Value(rng) {
+				return true
+			}
+			if d > 4 {
+				return false
+			}
+			switch x := v.(type) {
+			case *ssa.Call:
+				if cal := x.Call.StaticCallee(); cal != nil && cal.Name() == "RangeBetween" {
+					for _, a := range x.Call.Args {
+						if fromParam(a, d+1) {
+							return true
+						}
+					}
+				}
+			case *ssa.Phi:
+				for _, e := range x.Edges {
+					if !fromParam(e, d+1) {
+						return false
+					}
+				}
+				return len(x.Edges) > 0
+			}
+			return false
+		}
+		type site struct {
+			st *ssa.Store
+			ok bool
+		}
+		var sites []site
+		for _, b := range fn.Blocks {
+			for _, ins := range b.Instrs {
+				st, ok := ins.(*ssa.Store)
+				if !ok || !isNamed(st.Val.Type(), modPath, "Range") {
+					continue
+				}
+				fa, ok := st.Addr.(*ssa.FieldAddr)
+				if !ok {
+					continue
+				}
+				pt := fa.X.Type()
+				isNode := types.Implements(pt, nodeI)
+				if p, ok := pt.Underlying().(*types.Pointer); ok && !isNode {
+					isNode = types.Implements(p.Elem(), nodeI) || types.Implements(types.NewPointer(p.Elem()), nodeI)
+				}
+				if !isNode {
+					continue
+				}
+				sites = append(sites, site{st, fromParam(st.Val, 0)})
+			}
+		}
+		uses := 0
+		for _, s := range sites {
+			if s.ok {
+				uses++
+			}
+		}
+		if uses == 0 {
+			continue // the parameter is not what node ranges are made from here
+		}
+		c.Fn(FuncName(fn))
+		for i, s := range sites {
+			n++
+			c.Sites++
+			key := fmt.Sprintf("%s:range#%d", FuncName(fn), i+1)
+			c.Check(s.ok, "range.param", key, s.st.Pos(), "computed from the range handed in",
+				"this arm computes the node's range without the range parameter that the other arms use: the element being appended is left outside the node's recorded range")
+		}
+	}
+	c.Floor("range.param stores", n, 3, "the three arms of makeRelativeTraversal")
+}
+
+// peeker.index: Read advances to exactly the index nextToken reported.
+func c14PeekerIndex(c *Ctx, rule string) {
+	c.Rule(rule + " peeker.index: hclsyntax.(*peeker).Read stores into NextIndex exactly the index returned by nextToken for the token it returns (not a phi, not an index advanced any further): PrevRange() reads Tokens[NextIndex-1], which the parser takes as the end of the construct it has just finished, so an index stepped over further tokens (comments) makes every such range end at the wrong token")
+	rd := c.P.LookupFunc("hclsyntax", "peeker.Read")
+	nt := c.P.LookupFunc("hclsyntax", "peeker.nextToken")
+	if rd == nil || nt == nil {
+		c.CheckerFail("peeker.index", "anchor peeker.Read / peeker.nextToken does not resolve")
+		return
+	}
+	c.Fn(FuncName(rd))
+	n := 0
+	for _, b := range rd.Blocks {
+		for _, ins := range b.Instrs {
+			st, ok := ins.(*ssa.Store)
+			if !ok {
+				continue
+			}
+			fa, ok := st.Addr.(*ssa.FieldAddr)
+			if !ok {
+				continue
+			}
+			if fv := fieldVarOf(fa.X.Type(), fa.Field); fv == nil || fv.Name() != "NextIndex" {
+				continue
+			}
+			n++
+			c.Sites++
+			good := false
+			if ex, ok := st.Val.(*ssa.Extract); ok && ex.Index == 1 {
+				if call, ok := ex.Tuple.(*ssa.Call); ok && call.Call.StaticCallee() == nt {
+					good = true
+				}
+			}
+			c.Check(good, "peeker.index", FuncName(rd)+":NextIndex", st.Pos(), "the index nextToken returned",
+				"Read stores an index other than the one nextToken returned ("+pathName(st.Val)+"): PrevRange() no longer is the range of the token just read")
+		}
+	}
+	c.Floor("peeker.index stores", n, 1, "p.NextIndex = nextIdx")
 }
